@@ -4,6 +4,7 @@ CONSTANTS
   BoundModes <- BM2
   MenuKind = "general"
   MaxDepth = 2
+  StartChain = FALSE
   Emit = TRUE
 INVARIANT BagMatches
 INVARIANT ListMatches
